@@ -200,6 +200,38 @@ Definition ancestor_tasks (barrier : Z -> bool) (s : store) (r : trec) : list tr
   let gs := ancestors (S (n * n + n)) barrier s (t_ins r) (t_deps r) [] in
   filter (fun x => Z.eqb (t_ins x) (t_ins r) && zin (t_gid x) gs) (tasks s).
 
+(** the DAG's definition of the task (scenario fact): effective timeout and dependencies *)
+Definition declared (m : mst) (g : Z) : option (Z * list Z) :=
+  match aget (L []) (m_aux m) (fkey 3 g) with
+  | L [I to; deps] => match sx_ints deps with
+                      | Some d => Some ((if Z.eqb to 0 then fget m 21 0 else to), d)
+                      | None => None end
+  | _ => None
+  end.
+
+(** C05: a record created by the scheduled-watch carries the DAG's definition of its task *)
+Definition check_created (m : mst) (origin : Z) (l : list trec) : mst :=
+  if negb (Z.eqb origin 1) then m else
+  fold_left (fun acc r =>
+    match declared acc (t_gid r) with
+    | Some (to, deps) =>
+        let acc := if Z.eqb (t_timeout r) to then acc else add_viol acc 5 1 (t_gid r) in
+        let acc := if list_eqb Z.eqb (t_deps r) deps then acc else add_viol acc 5 4 (t_gid r) in
+        if Z.eqb (t_status r) sInit then acc else add_viol acc 5 5 (t_gid r)
+    | None => acc
+    end) l m.
+
+(** C05: exactly one record per DAG task once the instance is marked running *)
+Definition check_instantiated (m : mst) (s' : store) (id : Z) : mst :=
+  let ts := tasks_of s' id in
+  let m := if has_dup_gid ts then add_viol m 5 2 id else m in
+  fold_left (fun acc p =>
+    (* every declared task (aux kind 3) must have a record *)
+    if Z.eqb (fst p / 1000000000) 3 then
+      let g := fst p mod 1000000000 in
+      if existsb (fun r => Z.eqb (t_gid r) g) ts then acc else add_viol acc 5 3 id
+    else acc) (m_aux m) m.
+
 (* ------------------------------------------------------------------ processing of one event *)
 Definition remove_one (p : Z * Z) (l : list (Z * Z)) : list (Z * Z) :=
   (fix go (l : list (Z * Z)) : list (Z * Z) :=
@@ -254,7 +286,15 @@ Definition on_write (m : mst) (origin : Z) (o : sop) (acked : bool) (s s' : stor
            | OPatchTask id st _ _ =>
                if Z.eqb origin 3 && Z.eqb st sFailed then
                  match find_task s id with
-                 | Some r0 => if Z.eqb (t_status r0) sRunning then m else add_viol m 14 3 id
+                 | Some r0 =>
+                     let m := if Z.eqb (t_status r0) sRunning then m else add_viol m 14 3 id in
+                     (* never before the task's timeout (own or worker default) plus the grace period;
+                        2 s of slack for whole-second timestamps *)
+                     match declared m (t_gid r0) with
+                     | Some (to, _) => if Z.eqb (t_status r0) sRunning && (fget m 22 0 - t_upd r0 <? to + 5 - 2)
+                                       then add_viol m 14 4 id else m
+                     | None => m
+                     end
                  | None => m
                  end
                else m
@@ -286,6 +326,12 @@ Definition on_write (m : mst) (origin : Z) (o : sop) (acked : bool) (s s' : stor
        let acc := if fin_st (t_status r) then fset acc 8 (t_id r) 1 else acc in
        acc) (tasks s') m in
   let m := fold_left (fun acc i => if Z.eqb (i_status i) iRunning then fset acc 12 (i_id i) 1 else acc) (insts s') m in
+  let m := match o with
+           | OBatchCreateTasks l _ => check_created m origin l
+           | OPatchIns id _ st _ _ _ _ _ =>
+               if Z.eqb origin 1 && Z.eqb st iRunning then check_instantiated m s' id else m
+           | _ => m
+           end in
   match o with
   | OPatchTask id st rs tr =>
       let m := if Z.eqb st 0 then m else fset m 4 id (st * 2 + (if acked then 1 else 0)) in
@@ -470,6 +516,25 @@ Definition mstep0 (m : mst) (ev : sx) : mst :=
                    | _ => m
                    end in
           let m := if Z.eqb fault 1 then m else note_reads m reply in
+          (* C14: the expired sweep never selects a task before its timeout (own or worker default) plus
+             the grace period has elapsed since its last update, nor a task that is not running *)
+          let m := match o, reply with
+                   | OListTasks f, L [I 6; L recs] =>
+                       if Z.eqb origin 3 && tf_expired f && negb (Z.eqb fault 1) then
+                         fold_left (fun acc x =>
+                           match trec_of_sx x with
+                           | Some r1 =>
+                               match find_task (m_store acc) (t_id r1), declared acc (t_gid r1) with
+                               | Some r0, Some (to, _) =>
+                                   if (now - t_upd r0 <? to + 5 - 2) || negb (Z.eqb (t_status r0) sRunning)
+                                   then add_viol acc 14 5 (t_id r1) else acc
+                               | _, _ => acc
+                               end
+                           | None => acc
+                           end) recs m
+                       else m
+                   | _, _ => m
+                   end in
           (* C13: a task is recorded skipped / blocked by the engine only when a check really holds *)
           let m := match o with
                    | OPatchTask id st _ _ =>
@@ -510,6 +575,7 @@ Definition mstep0 (m : mst) (ev : sx) : mst :=
             | _ => m
             end
           else
+            let m := fset m 22 0 now in
             let s := m_store m in
             let s' := fst (sstep now s o) in
             let acked := Z.eqb fault 0 && sx_eqb reply (L [I 0]) in
@@ -627,7 +693,9 @@ Definition mstep0 (m : mst) (ev : sx) : mst :=
   | L [I 22; I d] => set_store m (age (m_store m) d)
   | L [I 23] => check_quiescent m
   | L [I 24] => check_final (check_quiescent m)
-  | L [I 26; I g; cks] => set_aux m (aset (m_aux m) (fkey 1 g) cks)
+  | L [I 26; I g; cks; I to; deps] =>
+      set_aux m (aset (aset (m_aux m) (fkey 1 g) cks) (fkey 3 g) (L [I to; deps]))
+  | L [I 33; I dflt] => fset m 21 0 dflt
   | L [I 27; I ins; vars] => set_aux m (aset (m_aux m) (fkey 2 ins) vars)
   | L [I 28] => add_viol m 20 9 0
   | _ => m
